@@ -3,10 +3,10 @@
    Spec/Sodium.v), and of the sequence of transactions an outermost close performs (the transaction of
    the sends, then one transaction per deferred item).
 
-   The program is the `defs` table of a specification state `st`.  Every primitive is covered except
-   switch_c (whose implementation acquires a dependency dynamically INSIDE an update closure,
-   /repo/src/impl_/cell.rs `switch_c`: that is outside a model whose dependency lists are fixed while
-   the engine runs).
+   The program is the `defs` table of a specification state `st`.  Every primitive is covered, switch_c
+   included: its implementation DEMANDS a node from inside an update closure (/repo/src/impl_/cell.rs
+   `switch_c`: `sodium_ctx.update_node2(firing.updates().node(), true)`), which is the dynamic-demand stage
+   of the engine of Model/Engine.v.
 
    `compile st` has one engine node per key below `nsize st = 1 + max key` (keys that are not defined are
    inert nodes) plus, at index `spark st k = nsize st + k`, the SPARK of key k: the source stream that
@@ -32,6 +32,16 @@
    excludes exactly the implementation's known defect with a cyclic outer cell (the specification's
    `occ (DSwitchS c)` does not read `upd c`, the implementation's node does depend on it).
 
+   switch_c (/repo/src/impl_/cell.rs `switch_c`): the node of `DSwitchC c` stands for the pair outer node /
+   inner node of the implementation.  Its static dependencies are the outer cell c (its update stream) and
+   the cell i currently held, `cur st c = VRef i` (its update stream, re-wired by the commit exactly like
+   switch_s).  When the outer cell fires a new inner cell `VRef m`, the update closure DEMANDS m's node
+   (`NDm`), then sends m's current value, overwritten by m's update of this same transaction if it has one;
+   otherwise the node forwards i's update.  This is `upd st inj fuel (DSwitchC c)` of Spec/Sodium.v.
+   The demanded cell is only known from the firing: the static potential demand targets `ndem` of a
+   switch_c node are ALL cell keys of the program, and the refinement theorems require acyclicity only for
+   the demands that actually occur (`sdem`, Proofs/NetRefine.v).
+
    defer / split (/repo/src/impl_/stream.rs): the result is a fresh sink; a listener on the argument posts
    one send per event (split: per list element), each run later in a transaction of its own.  So in a
    transaction a DDefer / DSplit node is a SOURCE fired with what was injected for it, and the commit
@@ -42,12 +52,11 @@ From Sodium Require Import Engine EngineScript Sodium.
 Open Scope nat_scope.
 
 (* ------------------------------------------------------------------ the fragment *)
-Definition in_frag_def (d : def) : bool :=
-  match d with
-  | DSwitchC _ => false
-  | _ => true
-  end.
+(* every definition kind is in the fragment (switch_c was excluded before the engine had demands) *)
+Definition in_frag_def (d : def) : bool := true.
 Definition in_fragment (st : state) : bool := forallb (fun kd => in_frag_def (snd kd)) (defs st).
+Lemma in_fragment_all st : in_fragment st = true.
+Proof. unfold in_fragment. apply forallb_forall. reflexivity. Qed.
 
 Fixpoint nodupb (l : list nat) : bool :=
   match l with [] => true | x :: t => negb (existsb (Nat.eqb x) t) && nodupb t end.
@@ -65,7 +74,7 @@ Definition refs_ok_def (st : state) (k : nat) (d : def) : bool :=
   | DMerge a b _ => is_stream_key st a && is_stream_key st b
   | DSnapshot s cs _ => is_stream_key st s && forallb (is_cell_key st) cs
   | DGate s c => is_stream_key st s && is_cell_key st c
-  | DUpdates c | DMapC c _ | DValue c | DSwitchS c => is_cell_key st c
+  | DUpdates c | DMapC c _ | DValue c | DSwitchS c | DSwitchC c => is_cell_key st c
   | DLift cs _ => forallb (is_cell_key st) cs
   | DSLoop => match alookup (loops st) k with Some t => is_stream_key st t | None => true end
   | DCLoop => match alookup (loops st) k with Some t => is_cell_key st t | None => true end
@@ -78,11 +87,13 @@ Definition refs_ok (st : state) : bool := forallb (fun kd => refs_ok_def st (fst
 Definition cells_resolved (st : state) : bool :=
   forallb (fun kd => negb (is_cell (snd kd)) || is_some (alookup (cvals st) (fst kd))) (defs st).
 
-(* the outer cell of every switch_s currently holds a reference to an existing stream (depends on
-   `cvals`: it has to be re-established after every commit) *)
+(* the outer cell of every switch_s currently holds a reference to an existing stream, the outer cell of
+   every switch_c a reference to an existing cell (depends on `cvals`: it has to be re-established after
+   every commit) *)
 Definition switch_target_ok_def (st : state) (d : def) : bool :=
   match d with
   | DSwitchS c => match cur st (F st) c with EV (VRef m) => is_stream_key st m | _ => false end
+  | DSwitchC c => match cur st (F st) c with EV (VRef i) => is_cell_key st i | _ => false end
   | _ => true
   end.
 Definition switch_targets_ok (st : state) : bool :=
@@ -115,11 +126,25 @@ Definition ddeps (st : state) (n : nat) (d : def) : list nat :=
   | DValue c => if amem (fresh st) n then [c; spark st n] else [c]
   (* the stream held at the start of the transaction, and the outer node *)
   | DSwitchS c => match cur st (F st) c with EV (VRef m) => [m; c] | _ => [c] end
+  (* the outer cell, and the cell held at the start of the transaction *)
+  | DSwitchC c => match cur st (F st) c with EV (VRef i) => [c; i] | _ => [c] end
   (* sinks, never, constants, and defer / split (sinks of their own deferred transactions): sources *)
   | _ => []
   end.
 Definition ndeps (st : state) (n : nat) : list nat :=
   match alookup (defs st) n with Some d => ddeps st n d | None => [] end.
+
+(* potential demand targets: a switch_c may demand any cell of the program *)
+Definition cell_keys (st : state) : list nat := map fst (filter (fun kd => is_cell (snd kd)) (defs st)).
+Definition ndem (st : state) (n : nat) : list nat :=
+  match alookup (defs st) n with Some (DSwitchC _) => cell_keys st | _ => [] end.
+
+(* the demand made from inside the update closure of switch_c: the cell the outer cell just fired *)
+Definition NDm (st : state) : demand val := fun n ins =>
+  match alookup (defs st) n with
+  | Some (DSwitchC _) => match nth 0 ins None with Some (VRef m) => [m] | _ => [] end
+  | _ => []
+  end.
 
 (* dependents: everybody who registered, here in increasing key order; the refinement theorem is
    proved for EVERY graph with these dependencies and complete dependents lists (any order) *)
@@ -127,7 +152,7 @@ Definition ndependents (st : state) (d : nat) : list nat :=
   filter (fun n => existsb (Nat.eqb d) (ndeps st n)) (seq 0 (gsize st)).
 
 Definition compile (st : state) : graph val :=
-  map (fun n => {| deps := ndeps st n; dependents := ndependents st n;
+  map (fun n => {| deps := ndeps st n; dem := ndem st n; dependents := ndependents st n;
                    visited := false; done := false; changed := false; fire := None |})
       (seq 0 (gsize st)).
 
@@ -136,7 +161,7 @@ Definition compile (st : state) : graph val :=
 Definition curv (st : state) (c : nat) : val :=
   match cur st (F st) c with EV v => v | EErr _ => VUnit end.
 
-Definition Frule (st : state) : rule val := fun n ins =>
+Definition Frule (st : state) : rule val := fun n ins exs =>
   let o := nth 0 ins None in
   match alookup (defs st) n with
   | None => None
@@ -155,6 +180,12 @@ Definition Frule (st : state) : rule val := fun n ins =>
     | DGate _ c => match o with Some v => if truthy (curv st c) then Some v else None | None => None end
     | DOnce _ | DUpdates _ | DSLoop | DRouter _ _ | DHold _ | DCLoop => o     (* forwarders *)
     | DSwitchS _ => o               (* inputs [current inner stream; outer]: forward the inner firing *)
+    | DSwitchC _ =>                 (* inputs [outer; current inner cell], demanded [new inner cell] *)
+      match o with
+      | Some (VRef m) => Some (match nth 0 exs None with Some u => u | None => curv st m end)
+      | Some _ => None              (* not a cell: excluded by the hypotheses (the specification is Illegal) *)
+      | None => nth 1 ins None      (* no switch: forward the current inner cell's update *)
+      end
     | DValue _ => match o with Some u => Some u | None => nth 1 ins None end   (* updates or_else spark *)
     | DRoute r k =>
       match alookup (defs st) r, o with
@@ -198,7 +229,7 @@ Definition net_sources (st : state) (inj : list (nat * val)) : list (nat * val) 
 Definition net_run (st : state) (gr : graph val) (fs : list (nat * val))
   : option (list (option val) * list nat) :=
   let N := length gr in
-  match drain (Frule st) false (S (S N)) (S (S (N + N)))
+  match drain (Frule st) (NDm st) false (S (S N)) (S (S (N + N)))
               {| g := fold_left (fun g nv => fire_source g (fst nv) (snd nv)) fs gr;
                  queue := map fst fs; log := [] |} with
   | Some s => Some (map fire (g s), rev (log s))
@@ -217,8 +248,9 @@ Definition net_calls (st : state) (fires : list (option val)) : list obs :=
               (rev (listeners st))).
 
 (* end of the transaction: cells take their fired update if any (else keep their value), once nodes
-   that fired are flagged, nothing is fresh any more.  The switch_s nodes need nothing: the next
-   transaction's dependencies are computed from the new `cvals` (what `pre_post` re-wires). *)
+   that fired are flagged, nothing is fresh any more.  The switch_s / switch_c nodes need nothing: the next
+   transaction's dependencies are computed from the new `cvals` (what `pre_post` / the update closure
+   re-wire). *)
 Definition net_commit (st : state) (fires : list (option val)) : state :=
   let newvals :=
     concat (map (fun kd : nat * def =>
